@@ -300,20 +300,26 @@ def execute(scn_cls, seed=None, config=None, steps=None, keep_events=False, scra
 
 
 def _raised_in_library(exc):
-    """file:line of the innermost frame if the exception was raised by library code (or by a C function the
-    library called directly), else None."""
+    """file:line of the deepest library frame if the exception came out of library code - raised there, or in a
+    C function / standard-library function it called - and NOT out of harness code the library called back into
+    (a simulator hash strategy, a SimFile).  None otherwise."""
     prefix = os.path.join(os.path.realpath(repo_path()), "probables") + os.sep
+    harness = os.path.dirname(os.path.abspath(__file__)) + os.sep
     tb = exc.__traceback__
-    last = None
+    depth = 0
+    last_lib = None
+    last_harness = -1
     while tb is not None:
-        last = tb
+        fn = os.path.realpath(tb.tb_frame.f_code.co_filename)
+        if fn.startswith(prefix):
+            last_lib = (depth, fn, tb.tb_lineno)
+        elif fn.startswith(harness) or "/refpy/" in fn:
+            last_harness = depth
+        depth += 1
         tb = tb.tb_next
-    if last is None:
+    if last_lib is None or last_harness > last_lib[0]:
         return None
-    fn = last.tb_frame.f_code.co_filename
-    if os.path.realpath(fn).startswith(prefix):
-        return f"{os.path.relpath(fn, os.path.dirname(prefix.rstrip(os.sep)))}:{last.tb_lineno}"
-    return None
+    return f"{os.path.relpath(last_lib[1], os.path.dirname(prefix.rstrip(os.sep)))}:{last_lib[2]}"
 
 
 def repo_path():
